@@ -1,6 +1,6 @@
 (* C10 — At most one active swap per channel. *)
 From Coq Require Import String ZArith Bool List.
-From PS Require Import Model.Data Model.Actions Model.Fsm Model.History Model.Service Proofs.C09 Proofs.C10.
+From PS Require Import Model.Data Model.Actions Model.Fsm Model.History Model.Service Model.C10ScidRes Proofs.C09 Proofs.C10 Proofs.C10ScidRes.
 Import ListNotations.
 Open Scope Z_scope.
 
@@ -24,6 +24,19 @@ Print Assumptions c10_lock_refuses_iff_busy.
 Theorem c10_spellings_name_one_channel : norm_scid "539268:845:1" = norm_scid "539268x845x1".
 Proof. exact norm_scid_spellings. Qed.
 Print Assumptions c10_spellings_name_one_channel.
+
+(* Adapter side (the look-up of the lnd / clightning adapters, Model/C10ScidRes.v, tied to the real adapters by
+   `psh scidres`): whatever spelling of the channel of an active swap the adapters resolve to that channel, lockSwap
+   refuses it - so a request cannot pass the channel look-up and slip past the one-swap-per-channel guard. *)
+Theorem c10_resolved_spelling_of_busy_channel_refused : forall n id scid m p,
+  In p (n_active n) -> adapter_resolves scid (chan_of (snd p)) = true -> lock_swap n id scid m = None.
+Proof. exact resolved_busy_channel_refused. Qed.
+Print Assumptions c10_resolved_spelling_of_busy_channel_refused.
+
+Theorem c10_resolved_spellings_collide : forall id1 id2 ch,
+  adapter_resolves id1 ch = true -> adapter_resolves id2 ch = true -> norm_scid id1 = norm_scid id2.
+Proof. exact resolved_same_channel. Qed.
+Print Assumptions c10_resolved_spellings_collide.
 
 (* a request for a busy channel creates nothing and is answered with cancel *)
 Theorem c10_busy_channel_request_cancelled :
